@@ -31,6 +31,11 @@ Later additions (seeded changes C14-1, C14-2, C25-2, C05-2 passed the first vers
     (recovered reply whose position tail was buffered inside the subscribe window and withheld by the tags filter, then a
     live delta) are replayed WITH frame comparison on every run. Seeded C14-1 -> sig medium:live-nonpositioned:
     after-nondelta-publish:*, seeded C14-2 -> recovery-to-live:after-filtered-in-window:*.
+  * payload classes (Publish argument pk in Delta.tla): "sim" payloads share long substrings, an "unrel" payload is short
+    and unrelated so that the code falls back to the full data in the middle of a chain (model rule: a patch travels only
+    between two similar payloads or for the identical payload; every recovered publication is judged against the data of
+    the previous RECOVERED one). Scenario scn_chain (recovered chain similar / unrelated / similar) replayed with
+    comparison on every run. Seeded C14-4 -> recovered-chain:after-full-fallback:*.
   * SharedPoll.tla: track split at the natural gate Node.OnCommandProcessed (reply written, keyed-hub join pending),
     monitors stale-after-(refresh|publish)[:track-window:<cached-item|same-version|zero>]: with everything at rest a
     tracking connection must not be left with an older payload than one applied on the server while it tracked the key.
@@ -178,7 +183,7 @@ def c14(c):
     # 1. design check: the reference design satisfies C14 on every behaviour of the small configurations
     # 2. the code as written (flagDeltaAllowed after every recovered subscribe) has C14 counterexamples in the model
     # 3. behaviours of the reference design for replay
-    cfgs = ['quick_rec.cfg', 'quick_np.cfg'] if quick else ['thorough_pos.cfg', 'thorough_np.cfg', 'thorough_faults.cfg', 'thorough_mix.cfg']
+    cfgs = ['quick_rec.cfg', 'quick_np.cfg', 'quick_chain.cfg'] if quick else ['thorough_pos.cfg', 'thorough_np.cfg', 'thorough_faults.cfg', 'thorough_mix.cfg']
     jobs = [_exh(c, 'Delta', 'Delta', v(x), workers=1 if quick else 2) for x in cfgs]
     if not quick:   # the other filter policy is sound as well
         jobs += [_exh(c, 'Delta', 'Delta', _variant(c, 'Delta', x, not withhold)) for x in ['quick_rec.cfg', 'quick_np.cfg']]
@@ -193,10 +198,11 @@ def c14(c):
     # scenario witnesses of the REFERENCE (shortest behaviours reaching a named situation; replayed with comparison on
     # every run): recovered reply whose position tail was withheld inside the subscribe window, then a live delta;
     # medium: publications with / without / with the delta option
-    jobs += [_witness(c, 'Delta', 'Delta', v('scn_tail.cfg')), _witness(c, 'Delta', 'Delta', v('scn_mixed.cfg'))]
+    jobs += [_witness(c, 'Delta', 'Delta', v('scn_tail.cfg')), _witness(c, 'Delta', 'Delta', v('scn_mixed.cfg')),
+             _witness(c, 'Delta', 'Delta', v('scn_chain.cfg'))]
     out = _par(jobs)
     wit, behs, kbehs, mwit, mbehs = out[nj], out[nj + 1], out[nj + 2], out[nj + 4], out[nj + 5]
-    behs = [out[nj + 6], out[nj + 7]] + behs
+    behs = [out[nj + 6], out[nj + 7], out[nj + 8]] + behs
     res = c.harness(binp, 'mapdelta', {'compare': False, 'behaviours': [mwit]}, timeout=300)
     _absorb_delta(c, res, total)
     res = c.harness(binp, 'mapdelta', {'compare': True, 'behaviours': mbehs}, timeout=1800)
